@@ -200,6 +200,11 @@ def execute(plan):
         v.append(viol("C19.W1.content" + sfx, end_ev, "run ended abnormally: %s" % o.crashed))
     if o.stalls:
         v.append(viol("C19.W1.content" + sfx, end_ev, "busy loop: %r" % (o.stalls[0],)))
+    for i, r in recs.items():
+        if r["exc"] and not r["exc"].startswith(("TimeoutError", "CancelledError")):
+            v.append(viol("C19.W3.raise" + sfx, r["start_ev"], "send #%d raised %s to its caller (a failing write is reported through "
+                          "DISCONNECTED and a reconnection, an unsendable message is dropped)" % (i, r["exc"][:120])))
+            break
     bad_ids = [i for i, op in sends.items() if op.get("kind") != "ok"]
     ok_ids = [i for i, op in sends.items() if op.get("kind") == "ok"]
     if bad_ids:
